@@ -249,6 +249,8 @@ def ensure_build(clean_props=False):
     """lake build (library + driver). Returns (ok, log)."""
     with _Lock():
         t0 = time.time()
+        # Driver.lean / TracklibVerif.lean are generated from the directory contents
+        subprocess.run([sys.executable, os.path.join(VERIF, "tools", "gen_lean_roots.py")], stdout=subprocess.DEVNULL, stderr=subprocess.DEVNULL)
         p = subprocess.run(["lake", "build"], cwd=LEAN, stdout=subprocess.PIPE, stderr=subprocess.STDOUT, text=True)
         ok = p.returncode == 0 and os.path.exists(DRIVER)
         log = p.stdout[-4000:]
